@@ -355,6 +355,17 @@ def programs(nstmt, pool, flag_dev, lang_variants):
                         fs = ["0"] * k
                         fs[i], fs[i + 1] = a, b
                         flagsets.append(fs)
+            if lang_variants and flag_dev in (1, 2) and k >= 2:
+                # a flagged lookup directly followed by a script / language statement: the statement
+                # resets the lookup flag (and the mark filtering set) for the rules after it
+                tabs2 = [g[0] in otlref.GSUB_FAMS for g in groups]
+                for tab in (True, False):
+                    idxs = [i for i in range(k) if tabs2[i] == tab]
+                    for pos in range(1, len(idxs)):
+                        prev, j = idxs[pos - 1], idxs[pos]
+                        for fl in ("mfs", "im"):
+                            if fl in flags_for(groups[prev][0]):
+                                yield [(g[0], fl if i == prev else "0", g[1], "TRK" if (i in idxs and i >= j) else None) for i, g in enumerate(groups)]
             for fs in flagsets:
                 yield [(g[0], f, g[1], None) for g, f in zip(groups, fs)]
                 if lang_variants and all(f == "0" for f in fs):
@@ -399,6 +410,13 @@ class Printer:
                 self.classes[k] = "@c%d" % len(self.classes)
                 self.defs.append("%s = [%s];" % (self.classes[k], " ".join(s)))
             return self.classes[k]
+        if self.sp.get("cls") == "mixed" and len(s) > 1:
+            # plain glyph names in front of a class reference inside one pair of brackets
+            k = tuple(s[1:])
+            if k not in self.classes:
+                self.classes[k] = "@c%d" % len(self.classes)
+                self.defs.append("%s = [%s];" % (self.classes[k], " ".join(s[1:])))
+            return "[%s %s]" % (s[0], self.classes[k])
         if self.sp.get("cls") == "range" and len(s) > 1 and all(ord(b) - ord(a) == 1 for a, b in zip(s, s[1:])):
             return "[%s-%s]" % (s[0], s[-1])
         return "[%s]" % " ".join(s)
@@ -709,6 +727,7 @@ def spellings(prog):
     if not lang and not flagged:
         dev("namedclass", cls="named")
         dev("rangeclass", cls="range")
+        dev("mixedclass", cls="mixed")
         if fams & {"spos", "pair", "ctxpos"}:
             dev("fullvalue", val="full")
             dev("namedvalue", val="named")
